@@ -197,6 +197,15 @@ def punct_units():
     return out
 
 
+WS_UNITS = [' ', '\n', '\t', ' \n', '\n ', '\r\n', '\xa0', '\x0c', '\x0b', '\n \n', '\u2003']
+
+
+def keyword_runs():
+    """alphabetic literal runs of the patterns (the words the library reacts to: 'well', 'surface', 'except', 'section' ...)"""
+    alphabet()
+    return [r for r in getattr(derive_alphabet, 'runs', []) if r.isalpha() and len(r) >= 3]
+
+
 def worker_init(tier):
     global _p
     _p = import_pytrs()
@@ -219,6 +228,8 @@ def units(tier):
                 us.append({'k': 'pump2', 'mode': None, 'p': pi, 'a': a, 'bs': toks})
     for u in punct_units():
         us.append({'k': 'pump_punct', 'mode': None, 'u': [u]})
+    for kw in keyword_runs():
+        us.append({'k': 'ws_kw', 'mode': None, 'kw': kw})
     for mode in MODES[tier]:
         for name in STRUCT_FAMILIES:
             if name in VOLUME_FAMILIES and mode is not None:
@@ -231,7 +242,8 @@ def space(tier):
     chars, pats = alphabet()
     return {'bound': f"texts <= {MAXLEN[tier]} characters; {len(all_units())} units ({len(chars)} characters derived from {pats} "
                      f"compiled patterns) x {len(PREFIXES)} prefixes x {len(SUFFIXES)} suffixes x doubling n; "
-                     f"plus {len(punct_units())} 'pattern word + punctuation' units in 5 contexts x 3 suffixes; {len(STRUCT_FAMILIES)} structural "
+                     f"plus {len(punct_units())} 'pattern word + punctuation' units in 5 contexts x 3 suffixes; {len(keyword_runs())} pattern words x "
+                     f"{len(WS_UNITS)} whitespace units (runs of 1..30 before / after the word); {len(STRUCT_FAMILIES)} structural "
                      f"families (repetition, wide and maximal ranges); "
                      f"modes {MODES[tier]}; CPU limit {LIMIT}s",
             'caps_hit': []}
@@ -331,6 +343,7 @@ VOLUME_FAMILIES = {
     'sec_x_lot_ranges': lambda k: 'T154N-R97W Secs ' + ', '.join(['1 - 99'] * max(1, k // 3)) + ': ' + ', '.join(['Lots 1 - 999'] * k),
 }
 STRUCT_FAMILIES.update(VOLUME_FAMILIES)
+VOLUME_PROBE_K = {'sec_ranges_999': 30, 'sec_x_lot_ranges': 15}
 
 
 def structural(acc, tier, mode, name):
@@ -340,6 +353,10 @@ def structural(acc, tier, mode, name):
     k = 1
     series = []
     seen = set()
+    if name in VOLUME_FAMILIES:
+        # one probe per family, a little beyond the point where the answer alone costs the limit (the full-length texts are the
+        # known findings and are replayed separately): keeps this unit far away from the worker deadline on a loaded machine
+        k = VOLUME_PROBE_K[name]
     while True:
         text = f(k)
         if len(text) > L:
@@ -348,7 +365,7 @@ def structural(acc, tier, mode, name):
             seen.add(text)
             dt = measure(acc, fam, text, mode)
             series.append((len(text), dt))
-            if dt > LIMIT:
+            if dt > LIMIT or name in VOLUME_FAMILIES:
                 break
         k += 1 if k < 4 else max(1, k // 3)
     if series:
@@ -365,6 +382,21 @@ def run_unit(unit, tier):
         for pi in (1, 2, 3, 4, 10):
             for si in (0, 3, 5):
                 pump_family(acc, tier, unit['mode'], pi, unit['u'], si)
+    elif unit['k'] == 'ws_kw':
+        # a run of (possibly mixed) whitespace directly before / after a word that the patterns react to, at the end of the text
+        # or followed by more text: scanning loops that step over whitespace must still advance
+        kw = unit['kw']
+        for ws in WS_UNITS:
+            for pre in ('T154N-R97W Sec 14: NE/4', 'T154N-R97W Sec 14: NE/4 - Smith'):
+                for cap in (kw, kw.capitalize() + 's'):
+                    for tail in ('', ' x', '\nT155N-R97W Sec 15: NE/4'):
+                        fam = f"{unit['mode']}|ws_kw|{ws!r}|{cap}|{pre[-5:]}|{tail[:3]!r}"
+                        for n in (1, 2, 3, 5, 8, 13, 30):
+                            for text in (pre + ws * n + cap + tail, pre + ' ' + cap + ws * n + tail.strip()):
+                                if len(text) <= MAXLEN[tier]:
+                                    dt = measure(acc, fam, text, unit['mode'])
+                                    if dt > LIMIT:
+                                        break
     elif unit['k'] == 'pump2':
         for b in unit['bs']:
             if b == unit['a']:
@@ -379,7 +411,7 @@ def run_unit(unit, tier):
 
 
 def on_unit_timeout(unit):
-    sig = f"C16:timeout:{unit.get('mode')}|p{unit.get('p')}|{unit.get('u') or unit.get('a') or unit.get('name') or unit.get('k')!r}"
+    sig = f"C16:timeout:{unit.get('mode')}|p{unit.get('p')}|{unit.get('u') or unit.get('a') or unit.get('name') or unit.get('kw') or unit.get('k')!r}"
     return [{'cls': 'deadline_kill', 'sig': sig, 'case': {'unit': unit}, 'got': f"worker killed at the deadline twice",
              'exp': f"every text <= {LIMIT}s", 'note': 'some text of this family never returned'}]
 
